@@ -10,3 +10,6 @@ import (
 func TestMain(m *testing.M) { pbt.Main(m, "C01") }
 
 func TestSliceWriteHistories(t *testing.T) { pbt.Run(t, hist.Gen, hist.Check) }
+
+// native coverage-guided fuzzing of the same histories (thorough tier)
+func FuzzSliceWriteHistories(f *testing.F) { pbt.Fuzz(f, hist.Gen, hist.Check) }
